@@ -92,7 +92,7 @@ func okCase(m string) caseIn {
 }
 
 var msDocs = []string{"principal", "unauth", "calhome", "cardhome", "statfile", "statdir", "readdir",
-	"calendars", "addressbooks", "calobjects", "cardobjects", "sync", "locked"}
+	"calendars", "addressbooks", "calobjects", "cardobjects", "sync", "locked", "multihref", "syncdesc"}
 
 func bigMultistatus(n int) string {
 	var rs []*node
@@ -158,11 +158,11 @@ func generate(emit func(caseIn)) {
 			case "Stat":
 				names = append(names, "statdir", "readdir")
 			case "ReadDir":
-				names = append(names, "statfile", "locked")
+				names = append(names, "statfile", "locked", "multihref")
 			case "FindCurrentUserPrincipal":
 				names = append(names, "unauth")
 			case "SyncCollection":
-				names = append(names, "cardobjects", "locked")
+				names = append(names, "cardobjects", "locked", "syncdesc", "multihref")
 			}
 		}
 		for _, dn := range names {
@@ -554,11 +554,14 @@ func generate(emit func(caseIn)) {
 	//     scripted where the code has no reason to read past the bytes: a 2xx answer to a method
 	//     that does not look at the body; a complete multi-status (207) or DAV:error document
 	//     (XML error) — the XML decoder stops at the end of the first element; an error body of a
-	//     type that is not looked at; a text error body longer than the 1 KiB that are kept, or
-	//     trickling (the limit is reached).  Not scripted: incomplete XML, short text followed by a
-	//     blocking reader, iCalendar/vCard bodies — there reading on is what the code must do.
+	//     type that is not looked at; a text error body followed by blanks at full speed for ever
+	//     (any finite limit on the text kept is reached at once; no constant of the code is
+	//     assumed), or by a blocking reader after 512 KiB of text.  Not scripted: incomplete XML,
+	//     text shorter than every plausible limit followed by a blocking reader, iCalendar/vCard
+	//     bodies — there reading on is what the code must do.
 	//     The call has to return within the watchdog's patience; (hang) is a failing input.
 	longText := strings.Repeat("the server is unhappy. ", 100)
+	hugeText := strings.Repeat("the server is very unhappy and says so at length. ", 512*1024/50)
 	for _, m := range methods {
 		mi := minfo[m]
 		for _, d := range []int{delivThenBlocks, delivThenTrickles} {
@@ -582,15 +585,23 @@ func generate(emit func(caseIn)) {
 				c = base(m, st)
 				c.r.ct, c.r.body = sp("application/xml"), errXML
 				cs = append(cs, c)
-				c = base(m, st)
-				c.r.ct, c.r.body = sp("text/plain"), longText
-				cs = append(cs, c)
 				if d == delivThenTrickles {
+					// text error bodies: whatever amount of text the code keeps, the endless
+					// blanks reach that limit at once
+					c = base(m, st)
+					c.r.ct, c.r.body = sp("text/plain"), longText
+					cs = append(cs, c)
 					c = base(m, st)
 					c.r.ct, c.r.body = sp("text/html"), "short"
 					cs = append(cs, c)
 					c = base(m, st)
 					c.r.body = ""
+					cs = append(cs, c)
+				} else if st == 403 && (m == "Open" || m == "Stat" || m == "Mkdir") {
+					// followed by a reader that blocks: only after far more text than any
+					// plausible limit (512 KiB)
+					c = base(m, st)
+					c.r.ct, c.r.body = sp("text/plain"), hugeText
 					cs = append(cs, c)
 				}
 			}
